@@ -6,7 +6,7 @@ F = "eliot/filter.py::"
 MSG = "dict[task_uuid=str;task_level=list[int];timestamp=float;*=Any]"
 
 contract(P + "_render_timestamp", props=["C20"], types={"message": MSG, "local_timezone": "bool"}, returns="str", modifies=[],
-         ensures=[("utc-is-marked-with-Z", "True")])
+         ensures=[("utc-is-marked-with-Z-local-time-is-not", "implies(not local_timezone, str_endswith(result, 'Z'))", ["C20"])])
 
 contract(P + "pretty_format.add_field", props=["C20"], types={"previous": "str", "key": "str", "value": "Any"}, returns="str", modifies=[],
          ensures=[("one-entry-naming-the-field", "str_contains(result, key)", ["C20"])])
@@ -29,9 +29,14 @@ contract(P + "compact_format", props=["C20"], types={"message": MSG, "local_time
          requires=[("field-names-are-text", "forall(lambda k: implies(contains(dict_of(message), k), is_str(k)), 'val')")],
          modifies=[],
          loops={1: {"locals": {}, "modifies": ["dict(ORDERED)"], "inv": [("message-untouched", "dict_of(message) == old(dict_of(message))"),
-                            ("ordered-keys-are-message-keys", "is_subset(dom(ORDERED), dom(message))")]}},
-         aliases={"ORDERED": 0},
-         ensures=[("accepts-every-eliot-message-and-returns-text", "dict_of(message) == old(dict_of(message))", ["C20"])])
+                            ("ordered-keys-are-message-keys", "is_subset(dom(ORDERED), dom(message))"),
+                            ("type-and-status-fields-plus-every-non-header-field-so-far-with-the-message's-values",
+                             "dict_of(ORDERED) == restrict(message, union(setof('action_type', 'message_type', 'action_status'), setminus(setof_seq(_done), setof('timestamp', 'task_uuid', 'task_level', 'message_type', 'action_type', 'action_status'))))")],
+                    "ghost_init": [("KEYS", "_s")]}},
+         aliases={"ORDERED": 0}, ghosts={"KEYS": "seq"},
+         ensures=[("accepts-every-eliot-message-and-returns-text", "dict_of(message) == old(dict_of(message))", ["C20"]),
+                  ("the-rendered-fields-are-the-type-and-status-fields-and-every-remaining-field-with-the-message's-values",
+                   "dict_of(ORDERED) == restrict(message, union(setof('action_type', 'message_type', 'action_status'), setminus(dom(message), setof('timestamp', 'task_uuid', 'task_level', 'message_type', 'action_type', 'action_status'))))", ["C20"])])
 
 contract(P + "_main", props=["C20"], returns="none",
          ghosts={"NOUT": "int", "NLINES": "int"}, ghost_defaults={"NOUT": "0"}, after={"OutStream.write#*": [("NOUT", "NOUT + 1")]},
